@@ -186,6 +186,17 @@ pub fn run(args: &Args) {
         if local_dim {
             src.push_str(&format!("  DIM {}\n", spell(&case_variant(&mut rng, base), sfx)));
         }
+        // a variable of the same bare name with ANOTHER suffix is another variable: using it first
+        // in the SUB changes nothing about where the name under test lives
+        if !is_const && !is_param && !local_dim && rng.chance(1, 2) {
+            let mut o = rng.below(5) as usize;
+            if Some(o) == sfx {
+                o = 4;
+            }
+            let other = spell(&case_variant(&mut rng, base), Some(o));
+            src.push_str(&format!("  {} = {}\n", other, if o == 4 { "\"t\"" } else { "7" }));
+            sum.count("scope_with_other_suffix_local");
+        }
         src.push_str(&format!("  PRINT \"sub\"; {}\n", u));
         if !is_const {
             src.push_str(&format!("  {} = 2\n", u));
@@ -236,6 +247,6 @@ pub fn run(args: &Args) {
     sum.write(
         &args.out,
         evaluations,
-        "family 1: 8 base names x random letter case of both spellings x suffix (none or one of % & ! # $) of both x 0-3 DEFtype statements (all five kinds, single letters and ranges around the first letter of the base, ends included, upper and lower case) x optional DIM base AS type; the program assigns 1 through the first spelling, 2 through the second and prints the first; observation (one variable / two variables / second rejected) vs Resolve.relation in Coq. Family 2: a name used inside a SUB while a global, DIM SHARED global, CONST, parameter or local DIM of that name exists; observation (local / shared global / constant) vs Resolve.home_of. Non-trivial = distinct programs.",
+        "family 1: 8 base names x random letter case of both spellings x suffix (none or one of % & ! # $) of both x 0-3 DEFtype statements (all five kinds, single letters and ranges around the first letter of the base, ends included, upper and lower case) x optional DIM base AS type; the program assigns 1 through the first spelling, 2 through the second and prints the first; observation (one variable / two variables / second rejected) vs Resolve.relation in Coq. Family 2: a name used inside a SUB while a global, DIM SHARED global, CONST, parameter or local DIM of that name exists, optionally after a local of the same bare name with another suffix was used in the SUB; observation (local / shared global / constant) vs Resolve.home_of. Non-trivial = distinct programs.",
     );
 }
